@@ -1,6 +1,6 @@
 """C04 — every even shard size works and symbol slots never interact (structural part)."""
 import re
-from . import core, c12, c05, resetrules
+from . import core, c12, c05, resetrules, roles as roles_mod, summ
 from .core import hcanon, hshow, op_place
 
 EXPLANATION = (
@@ -50,14 +50,17 @@ def run(ctx):
 def shard_bytes_writers(ctx, facts, cfg):
     R = 'C04.a-shard-bytes-writers'
     n = 0
+    RL = roles_mod.roles(facts)
     for adt in resetrules.WORKS:
+        side = 'enc' if adt == roles_mod.ENC_WORK else 'dec'
+        sbf = RL.field(side, 'shard_bytes')
         for p, fn in sorted(facts.fns.items()):
             if fn.impl_self_adt != adt:
                 continue
             for w in resetrules.write_sites(facts, p):
-                if w[0] == 'shard_bytes':
+                if w[0] == sbf:
                     n += 1
-                    if w[1] == 'assign' and w[2] == ('param', 'shard_bytes') and len(fn.inputs) >= 4:
+                    if w[1] == 'assign' and RL.norm(w[2], p) == ('param', 'shard_bytes') and p == RL.fn.get(side + '.reset'):
                         ctx.ok(R, '%s@%s' % (p, cfg), {'at': w[5]})
                     else:
                         ctx.violation(R, 'foreign-writer', '%s writes shard_bytes (%s) outside the explicit reset / not from the parameter' % (p, resetrules.describe(w)),
@@ -75,12 +78,17 @@ def unencode(ctx, facts, cfg):
         n += 1
         body = fn.body
         U, T = [], []
+        RL = roles_mod.roles(facts)
+        undo_paths = {RL.fn.get('enc.undo'), RL.fn.get('dec.undo')} - {None}
+        if not undo_paths:
+            ctx.violation(R, 'role-missing:undo', 'unrecognised idiom: %s' % (RL.problems[:1] or ['cannot identify the re-packing method of the work objects'])[0], fn=p, cfg=cfg)
+            continue
         for b, t in body.calls():
             q = t['callee'].get('path') or ''
             d = t['callee'].get('decl') or ''
-            if q.endswith('::undo_last_chunk_encoding'):
+            if q in undo_paths:
                 U.append((b, t))
-            elif d in TRANSFORM_DECLS or q in TRANSFORM_PATHS:
+            elif d in TRANSFORM_DECLS or q in TRANSFORM_PATHS or c05.transform_wrapper(facts, q) or is_transform(facts, body, t):
                 T.append((b, t))
         errs, oks = core.result_exits(body)
         ok_blocks = [b for (b, k, d) in oks if k == 'ctor']
@@ -131,6 +139,26 @@ def unencode(ctx, facts, cfg):
     ctx.floor(R, 4, n, 'codec functions', cfg=cfg)
 
 
+def is_transform(facts, body, t):
+    """a call that receives the work buffer (&mut ShardsRefMut / &mut [[u8; 64]]) and writes through it,
+    other than plain zeroing"""
+    q = t['callee'].get('path') or ''
+    if q.endswith('::zero') or not t['callee'].get('local'):
+        return False
+    for a in t['args']:
+        pl = op_place(a)
+        if pl is None or pl['p']:
+            continue
+        ty = body.local_ty(pl['l'])
+        if ty.startswith('&mut ') and ('ShardsRefMut' in ty or '[[u8; 64]]' in ty):
+            g = facts.fns.get(q)
+            if g is not None and not (g.impl_self_adt or '').endswith('ShardsRefMut'):
+                return True
+            if g is not None and g.name in ('copy_within',):
+                return True
+    return False
+
+
 def reach_after(body, b):
     out = set()
     for s in body.succs(b):
@@ -141,15 +169,15 @@ def reach_after(body, b):
 def range_agreement(ctx, facts, cfg):
     R = 'C04.c-range-agreement'
     SELF = ('deref', ('param', 'self'))
-    spec = {'rate::encoder_work::EncoderWork': (None, 'recovery_count'),
-            'rate::decoder_work::DecoderWork': ('original_base_pos', 'original_count')}
-    for adt, (base, count) in spec.items():
-        p = adt + '::undo_last_chunk_encoding'
-        fn = ctx.anchor(facts, p, R)
+    RL = roles_mod.roles(facts)
+    spec = {'enc': (None, 'recovery_count'), 'dec': ('original_base_pos', 'original_count')}
+    for side, (base, count) in spec.items():
+        fn = RL.get(ctx, side + '.undo', R, cfg)
         if fn is None:
             continue
+        p = fn.path
         body = fn.body
-        calls = [(b, t) for b, t in body.calls() if (t['callee'].get('path') or '').endswith('Shards::undo_last_chunk_encoding')]
+        calls = [(b, t) for b, t in body.calls() if t['callee'].get('path') == RL.fn.get('store.undo')]
         if len(calls) != 1:
             ctx.violation(R, 'no-delegate', '%s does not call Shards::undo_last_chunk_encoding exactly once' % p, site=fn.span, fn=p, cfg=cfg)
             continue
@@ -158,8 +186,8 @@ def range_agreement(ctx, facts, cfg):
             ctx.violation(R, 'delegate-signature', '%s no longer passes (shard_bytes, range) to Shards::undo_last_chunk_encoding: the size used for re-packing cannot be tied to the configured shard_bytes (a cached size goes stale on reset)' % p,
                           site=t['line'], fn=p, cfg=cfg)
             continue
-        sb = body.canon_op(t['args'][1])
-        rg = body.canon_op(t['args'][2])
+        sb = RL.norm(body.canon_op(t['args'][1]), p)
+        rg = RL.norm(body.canon_op(t['args'][2]), p)
         problems = []
         if sb != ('field', SELF, 'shard_bytes'):
             problems.append('shard size passed is %s, expected self.shard_bytes' % core.show(sb))
@@ -183,8 +211,9 @@ def range_agreement(ctx, facts, cfg):
 
 def split_agreement(ctx, facts, cfg):
     R = 'C04.d-split-agreement'
-    ins = ctx.anchor(facts, 'engine::shards::Shards::insert', R)
-    und = ctx.anchor(facts, 'engine::shards::Shards::undo_last_chunk_encoding', R)
+    RL = roles_mod.roles(facts)
+    ins = RL.get(ctx, 'store.insert', R, cfg)
+    und = RL.get(ctx, 'store.undo', R, cfg)
     if ins is None or und is None:
         return
     ib, ub = ins.body, und.body
@@ -223,7 +252,7 @@ def split_agreement(ctx, facts, cfg):
                 problems.append('undo reads the high half from offset %s but insert wrote it at offset %s' % (core.show(st), K))
             # normalise tail expressions: (len % 64) / 2 on both sides, len renamed
             def norm(c):
-                c = core.strip_var_ids(c)
+                c = core.strip_var_ids(RL.norm(RL.norm(c, ins.path), und.path))
                 if isinstance(c, tuple):
                     if c and c[0] == 'call' and str(c[1]).endswith('::len') and len(c[2]) == 1:
                         return 'LEN'
@@ -243,8 +272,8 @@ def split_agreement(ctx, facts, cfg):
     else:
         ctx.ok(R, 'insert~undo@%s' % cfg, {'half_block_offset': K, 'half_tail': core.show(half_i)})
     # Shards::resize rewrites every field of Shards (nested store of the work objects), C05.a extension
-    adt = facts.adts.get('engine::shards::Shards')
-    rz = facts.fns.get('engine::shards::Shards::resize')
+    adt = facts.adts.get(RL.store_adt or '')
+    rz = facts.fns.get(RL.fn.get('store.resize') or '')
     if adt and rz:
         fields = [fl['name'] for v in adt['variants'] for fl in v['fields']]
         ws = resetrules.write_sites(facts, rz.path)
@@ -292,37 +321,41 @@ def block_pairing(ctx, facts, cfg):
                 ctx.violation(R, 'mis-paired:%s' % re.sub(r'\W+', '_', hshow(ia) + '~' + hshow(ib))[:60],
                               '%s zips %s with %s: the operands are not sliced identically, so block k of one is combined with a different block of the other'
                               % (p, hshow(ia), hshow(ib)), site=z.get('line') or fn.span, fn=p, cfg=cfg)
-    ctx.floor(R, 7 if cfg != 'aarch64' else 7, n, 'zips over blocks / bytes', cfg=cfg)
+    ctx.floor(R, 8 if cfg != 'aarch64' else 6, n, 'zips over blocks / bytes', cfg=cfg)
 
 
 def lane_pairing(ctx, facts, cfg):
     R = 'C04.f-lane-pairing'
-    targets = ['<engine::engine_naive::Naive as engine::Engine>::mul', 'engine::engine_naive::Naive::mul_add',
-               '<engine::engine_nosimd::NoSimd as engine::Engine>::mul', 'engine::engine_nosimd::NoSimd::mul_add']
-    for p in targets:
-        fn = ctx.anchor(facts, p, R)
-        if fn is None:
-            continue
-        bad = []
-        n = 0
-        fors = core.hir_find(fn.hir, lambda m: core.for_loop_parts(m) is not None)
-        loopvars = set()
-        for (m, _) in fors:
-            pat, it, body = core.for_loop_parts(m)
-            if pat.get('k') == 'bind' and core.is_range_struct(it) is not None:
-                loopvars.add(pat['name'])
-        for (m, _) in core.hir_find(fn.hir, lambda m: m.get('k') == 'index' and re.match(r'\[u8(; 64)?\]$', m.get('base_ty', '') or '')):
-            n += 1
-            i = hcanon(m['idx'])
-            ok = (i[0] == 'local' and i[1] in loopvars) or \
-                 (i[0] == 'bin' and i[1] == 'Add' and {i[2], i[3]} & {('const', 32)} and any(x[0] == 'local' and x[1] in loopvars for x in (i[2], i[3])))
-            if not ok:
-                bad.append((hshow(i), m.get('line')))
-        if bad:
-            for (ix, line) in bad:
-                ctx.violation(R, 'lane:%s' % re.sub(r'\W+', '_', ix)[:40], '%s indexes a block with %s (allowed: loop variable or loop variable + 32): lanes of different symbol slots are mixed' % (p, ix),
-                              site=line, fn=p, cfg=cfg)
-        else:
-            ctx.ok(R, '%s@%s' % (core.short(p), cfg), {'block_index_expressions': n})
-        if n < 4:
-            ctx.violation(R, 'floor:%s' % core.short(p), 'expected instance missing: only %d block index expressions found in %s' % (n, p), fn=p, cfg=cfg)
+    for adt in ('engine::engine_naive::Naive', 'engine::engine_nosimd::NoSimd'):
+        total = 0
+        nf = 0
+        for p, fn in sorted(facts.fns.items()):
+            if fn.impl_self_adt != adt:
+                continue
+            fors = core.hir_find(fn.hir, lambda m: core.for_loop_parts(m) is not None)
+            loopvars = set()
+            for (m, _) in fors:
+                pat, it, body = core.for_loop_parts(m)
+                if pat.get('k') == 'bind' and core.is_range_struct(it) is not None:
+                    loopvars.add(pat['name'])
+            bad = []
+            n = 0
+            for (m, _) in core.hir_find(fn.hir, lambda m: m.get('k') == 'index' and re.match(r'\[u8(; 64)?\]$', m.get('base_ty', '') or '')):
+                n += 1
+                i = hcanon(m['idx'])
+                ok = (i[0] == 'local' and i[1] in loopvars) or \
+                     (i[0] == 'bin' and i[1] == 'Add' and {i[2], i[3]} & {('const', 32)} and any(x[0] == 'local' and x[1] in loopvars for x in (i[2], i[3])))
+                if not ok:
+                    bad.append((hshow(i), m.get('line')))
+            if not n:
+                continue
+            nf += 1
+            total += n
+            if bad:
+                for (ix, line) in bad:
+                    ctx.violation(R, 'lane:%s' % re.sub(r'\W+', '_', ix)[:40], '%s indexes a block with %s (allowed: loop variable or loop variable + 32): lanes of different symbol slots are mixed' % (p, ix),
+                                  site=line, fn=p, cfg=cfg)
+            else:
+                ctx.ok(R, '%s@%s' % (core.short(p), cfg), {'block_index_expressions': n})
+        if total < 8:
+            ctx.violation(R, 'floor:%s' % adt.split('::')[-1], 'expected instance missing: only %d block index expressions found in the methods of %s' % (total, adt), fn=adt, cfg=cfg)
